@@ -67,12 +67,29 @@ def run(ctx):
             if isinstance(x, ast.Call) and isinstance(x.func, ast.Attribute) and x.func.attr == "_invalidate_cache":
                 callers.append(f)
     allowed = {"dateutil.rrule.rrulebase.__init__", "dateutil.rrule._invalidates_cache.inner_func"}
-    ctx.floor("C11.EXEMPT", len(callers), 2, "callers of _invalidate_cache")
+    ctx.floor("C11.EXEMPT", len(callers), 1, "callers of _invalidate_cache")
     for f in callers:
         ctx.ob("C11.EXEMPT", f, "_invalidate_cache (exempt from C11.SHARED) is called only from construction "
                "and from the mutator decorator, never from iteration or queries",
                f.qualname in allowed, construct="call self._invalidate_cache() in %s" % f.name,
                detail="" if f.qualname in allowed else "new caller: cache state would be reset during iteration without the lock")
+
+    # C11.TAIL - whoever observes completion drains the rest of the cache: the generator's normal exit is reached
+    # only through the tail loop `while i < self._len`
+    cfg = ctx.cfg(ic)
+    tail = [n for n in cfg.live_nodes() if n.kind == "branch" and n.loop is not None and "self._len" in src(n.ast)]
+    if len(tail) != 1:
+        raise AnalysisError("C11.TAIL", ic.qualname, "tail loop over self._len not found (%d candidates)" % len(tail))
+    path = cfg.path_avoiding(cfg.entry, [cfg.exit], avoid_nodes=tail)
+    ctx.ob("C11.TAIL", ic, "every normal exit of the cached iterator passes through the tail loop that yields the "
+           "elements cached by other iterators (cache[i] for i < _len)", path is None, construct="exit only via `while %s`" % src(tail[0].ast),
+           detail="" if path is None else "path to exit bypassing the tail loop: %s" % " -> ".join("L%d" % p.lineno for p in path if p.lineno),
+           analysis="CFG must-pass-through")
+    from ..rules_lock import stmt_text
+    tl = tail[0]
+    body_y = [n for n in cfg.reach([tl], labels=None) if n.kind == "stmt" and isinstance(n.ast, ast.Expr) and isinstance(n.ast.value, ast.Yield)]
+    ok = src(tl.ast).replace(" ", "") == "i<self._len"
+    ctx.ob("C11.TAIL", ic, "the tail loop runs while the cursor is below the published length", ok, construct="tail loop test: %s" % src(tl.ast))
 
     # C11.LEN - the tail loop of cached iterators reads _len, which every generator exit must have published
     check_len_published(ctx, "C11.LEN")
